@@ -351,6 +351,26 @@ func DeepCopy(v Value) Value {
 	return v
 }
 
+// CopyContainers copies objects and arrays and shares every other value
+// (functions included): what a transform does with the members it inserts.
+func CopyContainers(v Value) Value {
+	switch x := v.(type) {
+	case []interface{}:
+		out := make([]interface{}, len(x))
+		for i, e := range x {
+			out[i] = CopyContainers(e)
+		}
+		return out
+	case map[string]interface{}:
+		out := make(map[string]interface{}, len(x))
+		for k, e := range x {
+			out[k] = CopyContainers(e)
+		}
+		return out
+	}
+	return v
+}
+
 func collectMaps(v Value, set map[uintptr]bool) {
 	switch x := v.(type) {
 	case []interface{}:
@@ -407,7 +427,7 @@ func (ev *Evaluator) callTransform(f *Func, argv []Value) (Value, *Err) {
 			if mine {
 				// members are inserted by value (a copy): the update may refer
 				// to the object itself
-				for k, v := range DeepCopy(um).(map[string]interface{}) {
+				for k, v := range CopyContainers(um).(map[string]interface{}) {
 					m[k] = v
 				}
 			} else if len(um) > 0 {
